@@ -5,6 +5,7 @@ from urllib.request import urlopen
 
 import pydot
 
+from ..exceptions import InvalidStateValue
 from ..statemachine import StateMachine
 
 
@@ -112,6 +113,13 @@ class DotGraphMachine:
 
         return actions
 
+    def _current_state(self):
+        try:
+            return self.machine.current_state
+        except InvalidStateValue:
+            # a machine with async callbacks that was not activated yet has no current state
+            return None
+
     def _state_as_node(self, state):
         actions = self._state_actions(state)
 
@@ -124,7 +132,7 @@ class DotGraphMachine:
             fontsize=self.state_font_size,
             peripheries=2 if state.final else 1,
         )
-        if state == self.machine.current_state:
+        if state == self._current_state():
             node.set_penwidth(self.state_active_penwidth)
             node.set_fillcolor(self.state_active_fillcolor)
         else:
